@@ -30,7 +30,10 @@ RULE = (
     "(downloader answers allowed=False), abort / pause / queue through client.transfers, status change "
     "(GetUserStatus.Response), privilege list / AddPrivilegedUser, friend list change, limit change "
     "(settings.transfers.limits.upload_slots assigned, or the limits section / the whole transfers section of the "
-    "settings replaced by a new object with the other values preserved) and advance(dt) with dt in {0, 10 ms, 49 ms, 51 ms, 250 ms, 2 s}; then "
+    "settings replaced by a new object with the other values preserved), a restart on the same objects (all queued / running uploads aborted, then "
+    "client.stop() + start() + login(), or TransferManager.stop() + start() alone, 0..300 ms after the last transfer "
+    "event, new requests follow), a lost server connection (EOF / reset) with a manual connect_server() + login() "
+    "10 ms..2 s later, and advance(dt) with dt in {0, 10 ms, 49 ms, 51 ms, 250 ms, 2 s}; then "
     "30 s of virtual time without external events followed by up to 50 windows of 2 s while uploads are still active "
     "or look stuck (covers reply timeout + retry + transfer). Observation: a TransferStateListener on every upload, a snapshot of what "
     "the client knows (upload states, user status/privileged from client.users, friends and limit from "
@@ -46,7 +49,10 @@ RULE = (
     "unconstrained; (6) after the quiet period, in no 2 s window without any state change does a QUEUED upload of a "
     "not-offline user without active upload exist while a slot is free -- where an INITIALIZING/UPLOADING upload "
     "that no task negotiates or sends any more (task handle None or done for the whole window) does not count as "
-    "occupying a slot or as the one upload of its user. Non-trivial = at some "
+    "occupying a slot or as the one upload of its user. (7) at two management decisions in a row no user with an unfinished upload is "
+    "without a tracking entry in the client, and at the end AddUser for every such user has reached the server on "
+    "the current session; (8) an upload that stays INITIALIZING for 250 s without any state change while it blocks "
+    "a waiting eligible upload is a violation of (6). Non-trivial = at some "
     "management cycle more eligible users had a QUEUED upload than slots were free; distinct = (population, initial "
     "limit, event-kind sequence)."
 )
@@ -63,6 +69,13 @@ ASSUMPTIONS = [
     "'eventually' is decided at a horizon of 30 s of virtual time without external events plus up to 100 s while "
     "uploads are active, in 2 s windows: a violation needs a whole window without any transfer state change",
     "shares are mode 'everyone' and never change, nobody is blocked (entitlement is C08's subject)",
+    "stop() + start() + login() on the same client object is generated only after the application has aborted every "
+    "queued / running upload (tidy shutdown). Stopping with uploads in progress leaves them INITIALIZING / UPLOADING "
+    "without a task after the restart (they keep their slot and their user's one upload for ever: kind "
+    "...:slot-held-by-*-upload-without-task:after-stop-start when replayed with 'tidy': false), and the management "
+    "cycle that load_data / start() requests runs before the login, so a queued upload is negotiated while the server "
+    "connection is not usable (GetPeerAddress is never answered, AddUser is lost) -- reported as defects of the "
+    "restart path, outside the registered domain",
     "client.transfers.queue() is called in the states its documentation lists (ABORTED, PAUSED, COMPLETE, FAILED) and "
     "in QUEUED / UPLOADING where it raises InvalidStateTransition, but not on an INITIALIZING upload: there it "
     "re-queues silently without cancelling the running negotiation, so one upload is negotiated and sent twice "
@@ -99,9 +112,21 @@ LIMIT_HOW = ['attribute', 'limits-section', 'transfers-section']
 # server announces some status (= a management cycle is requested) this long after the call
 SLOW_CLOSE = [0.0, 0.1, 0.3, 0.5]
 POKE_AT = [None, 0.02, 0.06, 0.15]
+# 'restart': client.stop() this long after the last transfer state change (so that a management request may still be
+# pending), then start() + login() again ON THE SAME client object after SESSION_GAP; 'relogin': the server drops the
+# connection (EOF / reset), the application connects and logs in again after SESSION_GAP (no automatic reconnect)
+RESTART_AFTER = [0.0, 0.010, 0.060, 0.300]
+# what is stopped and started again: the whole client (stop(), start(), login()) | only the transfer service
+# (TransferManager.stop() + its cancelled tasks awaited, TransferManager.start(); the session stays). A start() of the
+# whole client always requests a shares cycle (load_from_settings announces every configured directory), the service
+# alone does not
+RESTART_SCOPE = ['client', 'transfer-service']
+SESSION_GAP = [0.010, 0.060, 0.300, 2.0]
+NEGOTIATION_MAX = 250.0  # no single negotiation attempt (one stay in INITIALIZING) can legitimately last this long
+TRACK_BOUND = 5.0       # AddUser for a user with an unfinished upload must reach the server within 5 s of the session
 TOLD_MARGIN = 0.010     # a server message counts as known to the client when it was sent >= 10 ms before a decision
 OPS = ['queue', 'adv', 'finish', 'fail', 'refuse', 'abort', 'pause', 'requeue', 'status', 'privs', 'addpriv',
-       'friend', 'limit', 'rerequest']
+       'friend', 'limit', 'rerequest', 'restart', 'relogin']
 MAX_EVENTS = 14
 QUIET = 30.0            # virtual seconds without external events before liveness is judged ...
 DRAIN_ROUNDS = 50       # ... then up to 50 further windows of 2 s while uploads are still active / look stuck
@@ -140,6 +165,14 @@ def _event():
         st.builds(lambda a, b: {'op': 'friend', 'u': a, 'on': b}, u, st.booleans()),
         st.builds(lambda a, h: {'op': 'limit', 'n': a, 'how': h}, st.integers(0, 4), st.integers(0, len(LIMIT_HOW) - 1)),
         st.builds(lambda a, h: {'op': 'limit', 'n': a, 'how': h}, st.integers(0, 4), st.integers(0, len(LIMIT_HOW) - 1)),
+        st.builds(lambda a, g, sc, td, sv: {'op': 'restart', 'after': a, 'gap': g, 'scan': sc, 'tidy': td, 'scope': sv},
+                  st.integers(0, len(RESTART_AFTER) - 1), st.integers(0, len(SESSION_GAP) - 1),
+                  st.integers(0, 3).map(lambda v: v == 0), st.just(True), st.integers(0, len(RESTART_SCOPE) - 1)),
+        st.builds(lambda a, g, sc, td, sv: {'op': 'restart', 'after': a, 'gap': g, 'scan': sc, 'tidy': td, 'scope': sv},
+                  st.integers(0, len(RESTART_AFTER) - 1), st.integers(0, len(SESSION_GAP) - 1),
+                  st.integers(0, 3).map(lambda v: v == 0), st.just(True), st.integers(0, len(RESTART_SCOPE) - 1)),
+        st.builds(lambda r, g: {'op': 'relogin', 'reset': r, 'gap': g}, st.booleans(),
+                  st.integers(0, len(SESSION_GAP) - 1)),
     )
 
 
@@ -232,6 +265,15 @@ def _sanitise(case):
             ev['how'] = _int(e.get('how'), 0, len(LIMIT_HOW) - 1)
         if op == 'adv':
             ev['dt'] = _int(e.get('dt'), 0, len(DTS) - 1)
+        if op == 'restart':
+            ev['after'] = _int(e.get('after'), 0, len(RESTART_AFTER) - 1)
+            ev['scan'] = bool(e.get('scan'))
+            ev['tidy'] = True    # an untidy stop() + restart of the same object is outside the quantifier (DESIGN 11.3)
+            ev['scope'] = _int(e.get('scope'), 0, len(RESTART_SCOPE) - 1)
+        if op == 'relogin':
+            ev['reset'] = bool(e.get('reset'))
+        if op in ('restart', 'relogin'):
+            ev['gap'] = _int(e.get('gap'), 0, len(SESSION_GAP) - 1)
         events.append(ev)
     speed = case.get('speed') if case.get('speed') in SPEEDS and not isinstance(case.get('speed'), bool) else 1
     return {'limit': _int(case.get('limit'), 0, 4, 1), 'speed': speed, 'sizes': sizes, 'users': users,
@@ -282,6 +324,9 @@ class Observer:
         self.contended = False
         self.priority_exercised = False
         self.exempt_seen = False
+        self.last_change = 0.0
+        self.stop_seq = None               # seq at the last client.stop()
+        self.session_lost: list = []       # virtual times at which the server session ended (stop() / connection lost)
 
     # -- helpers ----------------------------------------------------------
     def now(self):
@@ -341,6 +386,7 @@ class Observer:
         if self.uploads.get(key) is not transfer:
             return
         self.seq += 1
+        self.last_change = self.loop.time()
         self.trans.append((self.seq, self.now(), key, old, new))
         if new == 'INITIALIZING' and old == 'QUEUED':
             self.starts[key] = self.starts.get(key, 0) + 1
@@ -382,6 +428,24 @@ class Observer:
         limit = self.client.settings.transfers.limits.upload_slots
         snap = {'seq': self.seq, 'time': self.now(), 't': self.loop.time(), 'limit': limit, 'states': states,
                 'users': users, 'started': []}
+        # the client owes tracking (reason TRANSFER) to every user with an unfinished upload: manage_user_tracking runs
+        # right before every decision, so the reason must be on record for users that were already owed at the
+        # previous decision (tracking state is reset with the session, the obligation is not)
+        owed = {k[0] for k, s in states.items() if s not in ('COMPLETE', 'ABORTED', 'FAILED', 'VIRGIN')}
+        snap['owed'] = owed
+        entries = self.client.users._tracking_manager._tracked_users      # observation only
+        snap['untracked'] = {n for n in owed if n not in entries}
+        prev = self.cycles[-1] if self.cycles else None
+        if prev is not None and snap['t'] - prev['t'] >= 0.04:
+            for n in sorted(snap['untracked'] & prev.get('untracked', set())):
+                which = ':after-relogin' if self.session_lost else ''
+                self.violate(
+                    f'C05/user-with-unfinished-upload-not-tracked{which}',
+                    f'{n} has {[(k[1][-6:], s) for k, s in states.items() if k[0] == n]} but the client does not '
+                    f'track {n} at all (no tracking entry; flags {self.client.users.get_tracking_flags(n)!r}, state '
+                    f'{self.client.users.get_tracking_state(n).name}) at two management cycles in a row '
+                    f'(t={prev["time"]}, t={snap["time"]}): it cannot learn that the user is offline / online; it '
+                    f'holds {users[n]}')
         self.cycles.append(snap)
         active_users = {k[0] for k, s in states.items() if s in ACTIVE}
         eligible = {k[0] for k, s in states.items()
@@ -420,6 +484,38 @@ class Observer:
                         f'{a}{snap["users"][a]} while eligible {b}{snap["users"][b]} kept all its uploads QUEUED; '
                         f'states={ {k[0] + "/" + k[1][-6:]: s for k, s in snap["states"].items()} }')
 
+    # -- the client must (again) track every user it owes an upload -------------------
+    def check_tracked(self, frames):
+        """End of run (>= 30 s quiet): for every user with an unfinished upload (not COMPLETE / ABORTED / FAILED) that
+        did not change state during the last TRACK_BOUND seconds, an AddUser request must have reached the server on
+        the CURRENT session (which is at least TRACK_BOUND old) and not been revoked by RemoveUser: without it the
+        client gets no status for the user ('offline users never', online/away > unknown need that knowledge)."""
+        M = simworld.M()
+        now = self.loop.time()
+        logins = [t for t, _, msg in frames if isinstance(msg, M.Login.Request)]
+        if not logins or now - logins[-1] < TRACK_BOUND or any(t >= logins[-1] for t in self.session_lost):
+            return
+        recent = {key[0] for _, t, key, _, _ in self.trans if t + 1000.0 > now - TRACK_BOUND}
+        owed = sorted({k[0] for k in self.uploads
+                       if self.state_of(k) not in ('COMPLETE', 'ABORTED', 'FAILED', 'VIRGIN')} - recent)
+        for n in owed:
+            tracked = False
+            for t, _, msg in frames:
+                if t < logins[-1]:
+                    continue
+                if isinstance(msg, M.AddUser.Request) and msg.username == n:
+                    tracked = True
+                elif isinstance(msg, M.RemoveUser.Request) and msg.username == n:
+                    tracked = False
+            if not tracked:
+                which = 'after-relogin' if len(logins) > 1 else 'first-session'
+                self.violate(
+                    f'C05/user-with-unfinished-upload-not-tracked:{which}',
+                    f'{n} has {[(k[1][-6:], self.state_of(k)) for k in self.uploads if k[0] == n]} but no AddUser '
+                    f'request for {n} reached the server on the current session (login at '
+                    f't={round(logins[-1] - 1000.0, 3)}, now t={self.now()}): the client cannot learn the status of '
+                    f'the user; it holds {self.user_info(n)}')
+
     # -- second source of truth: what the server has told the client ----------------
     def check_told(self, told, frames):
         """Judge every decision that started an upload against what the simulated server had TOLD the client about
@@ -447,11 +543,21 @@ class Observer:
                     priv_told.setdefault(n, []).append((t, n in msg.users))
             elif isinstance(msg, M.AddPrivilegedUser.Response):
                 priv_told.setdefault(msg.username, []).append((t, True))
-        for t, _, msg in frames:
-            if isinstance(msg, M.AddUser.Request):
+        marks = sorted([(t, None, msg) for t, _, msg in frames] + [(t, 'lost', None) for t in self.session_lost],
+                       key=lambda x: x[0])
+        for t, lost, msg in marks:
+            if lost or isinstance(msg, M.Login.Request):
+                # the session ends / a new one begins: the client forgets users and privileges, nobody is tracked
+                for n in names:
+                    track.setdefault(n, []).append((t, 'remove'))
+                    if lost:
+                        priv_told.setdefault(n, []).append((t, False))
+            elif isinstance(msg, M.AddUser.Request):
                 track.setdefault(msg.username, []).append((t, 'add'))
             elif isinstance(msg, M.RemoveUser.Request):
                 track.setdefault(msg.username, []).append((t, 'remove'))
+        for n in priv_told:
+            priv_told[n].sort(key=lambda x: x[0])
 
         def status_at(u, d):
             msgs = [m for m in status_told.get(u, []) if m[0] <= d]
@@ -501,7 +607,8 @@ class Observer:
             for key in snap['started']:
                 a = key[0]
                 if status_at(a, d) == 'OFFLINE':
-                    self.violate('C05/offline-user-started:told-by-server',
+                    which = ':after-relogin' if any(t <= d for t in self.session_lost) else ''
+                    self.violate(f'C05/offline-user-started:told-by-server{which}',
                                  f'upload {_short(key)} was started by the cycle at t={snap["time"]} although the last '
                                  f'thing the server had told about {a} (>= {TOLD_MARGIN} s earlier, user tracked, nothing '
                                  f'newer in flight) was OFFLINE; the client held {snap["users"][a]}; told='
@@ -519,8 +626,9 @@ class Observer:
                         continue
                     cb = class_at(b, d, snap['users'][b][2])
                     if cb is not None and cb > ca:
+                        which = ':after-relogin' if any(t <= d for t in self.session_lost) else ''
                         self.violate(
-                            f'C05/priority-inverted:told-by-server:{CLASS_NAMES[ca]}-before-{CLASS_NAMES[cb]}',
+                            f'C05/priority-inverted:told-by-server{which}:{CLASS_NAMES[ca]}-before-{CLASS_NAMES[cb]}',
                             f'cycle at t={snap["time"]} (limit {snap["limit"]}, free {snap["free"]}) started '
                             f'{_short(key)} of {a} while eligible {b} kept all its uploads QUEUED; by what the server '
                             f'had told, {a} is {CLASS_NAMES[ca]} and {b} is {CLASS_NAMES[cb]}; the client held '
@@ -584,6 +692,20 @@ class Observer:
             return []
         return sorted(k for k, s in states.items()
                       if s == 'QUEUED' and k[0] not in active_users and self.user_info(k[0])[0] != 'OFFLINE')
+
+
+class _MemSharesCache:
+    """Shares cache of the application (SharesCache protocol) kept in memory: the shared directories survive a
+    stop() / start() of the client without a new scan, as with the shelve cache."""
+
+    def __init__(self):
+        self.directories: list = []
+
+    def read(self):
+        return self.directories
+
+    def write(self, shared_directories):
+        self.directories = shared_directories
 
 
 def _slow_file_close(down, path, delay):
@@ -727,7 +849,7 @@ def run_case(case) -> CaseResult:
         world.server.send = send_recorded
         world.server.post_login = [M.PrivilegedUsers.Response(users=[n for n, u in zip(names, c['users']) if u['priv']])]
 
-        client = await world.start_client(settings)
+        client = await world.start_client(settings, shares_cache=_MemSharesCache())
         client.network.set_upload_speed_limit(c['speed'])
         obs = Observer(world, client, res)
         out['obs'] = obs
@@ -863,6 +985,52 @@ def run_case(case) -> CaseResult:
                     client.settings.users.friends.add(n)
                 else:
                     client.settings.users.friends.discard(n)
+            elif op == 'restart':
+                # stop() `after` seconds after the last transfer state change (or at once when that is longer ago)
+                if obs.trans:
+                    wait = obs.last_change + RESTART_AFTER[ev['after']] - loop.time()
+                    if 0 < wait <= 0.3:
+                        await asyncio.sleep(wait)
+                if ev['tidy']:
+                    # the application shuts down tidily: it aborts every upload that is queued or running before it
+                    # stops the client (generated histories always do; see ASSUMPTIONS for what happens otherwise)
+                    for _ in range(3):
+                        todo = [k for k in obs.uploads if obs.state_of(k) in ('QUEUED',) + ACTIVE]
+                        if not todo:
+                            break
+                        for key in todo:
+                            await user_call('abort', obs.uploads[key])
+                else:
+                    res.label('restart:untidy')
+                if RESTART_SCOPE[ev['scope']] == 'transfer-service':
+                    cancelled = await client.transfers.stop()
+                    await asyncio.gather(*cancelled, return_exceptions=True)
+                    obs.stop_seq = obs.seq
+                    await asyncio.sleep(SESSION_GAP[ev['gap']])
+                    await client.transfers.start()
+                    res.label('restart:transfer-service')
+                else:
+                    obs.session_lost.append(loop.time())
+                    await client.stop()
+                    obs.stop_seq = obs.seq     # everything up to here happened before / during the stop
+                    await asyncio.sleep(SESSION_GAP[ev['gap']])
+                    world.server.post_login = [M.PrivilegedUsers.Response(
+                        users=[n for n in names if world.server.users[n].get('privileged')])]
+                    await client.start()
+                    await client.login()
+                    if ev['scan']:
+                        await client.shares.scan()
+                    res.label('restart:client:with-scan' if ev['scan'] else 'restart:client:shares-from-cache')
+            elif op == 'relogin':
+                if world.server.sessions and not world.server.sessions[-1].dead:
+                    obs.session_lost.append(loop.time())
+                    world.server.close_session(kind='reset' if ev['reset'] else 'eof')
+                    await asyncio.sleep(SESSION_GAP[ev['gap']])
+                    world.server.post_login = [M.PrivilegedUsers.Response(
+                        users=[n for n in names if world.server.users[n].get('privileged')])]
+                    await client.network.connect_server()
+                    await client.login()
+                    res.label('relogin')
             elif op == 'limit':
                 how = LIMIT_HOW[ev['how']]
                 if how == 'attribute':
@@ -908,8 +1076,13 @@ def run_case(case) -> CaseResult:
                     and obs.stuck(ignore=dead) == blocked:
                 limit = client.settings.transfers.limits.upload_slots
                 states = sorted({obs.state_of(k) for k in dead})
+                # root cause tag: the upload has not changed state since the client was stopped (its task was
+                # cancelled by stop(), start() on the same object does not repair the state)
+                last_seq = {k: max([sq for sq, _, kk, _, _ in obs.trans if kk == k] or [0]) for k in dead}
+                tag = ':after-stop-start' if obs.stop_seq is not None and \
+                    all(last_seq[k] <= obs.stop_seq for k in dead) else ''
                 obs.violate(
-                    f'C05/eligible-upload-not-started:slot-held-by-{"+".join(states)}-upload-without-task',
+                    f'C05/eligible-upload-not-started:slot-held-by-{"+".join(states)}-upload-without-task{tag}',
                     f'{[(k[0], k[1][-6:], obs.user_info(k[0])) for k in blocked]} stay QUEUED (limit {limit}) because '
                     f'{[(k[0], k[1][-6:], obs.state_of(k)) for k in dead]} keep(s) a slot / the one upload of the user '
                     f'although no task negotiates or sends it any more (task handle None or done); no state change '
@@ -929,11 +1102,43 @@ def run_case(case) -> CaseResult:
                     f't={obs.cycles[-1]["time"] if obs.cycles else None}')
                 break
         if undecided:
+            # an upload that has been INITIALIZING since before the drain began: no sequence of the library's own
+            # time-outs (connect 10 s / 60 s, reply 30 s, connect, offset 60 s) keeps one negotiation attempt alive
+            # for NEGOTIATION_MAX seconds; wait that long, then judge it like an upload without task
+            def wedged():
+                out = []
+                for k in obs.uploads:
+                    if obs.state_of(k) == 'INITIALIZING':
+                        last = max(t for _, t, kk, _, _ in obs.trans if kk == k)
+                        if obs.now() - last >= 100.0:
+                            out.append((k, last))
+                return out
+            w = wedged()
+            if w:
+                before = len(obs.trans)
+                remaining = max(l for _, l in w) + NEGOTIATION_MAX - obs.now()
+                while remaining > 0 and len(obs.trans) == before:
+                    await asyncio.sleep(min(10.0, remaining))
+                    remaining -= 10.0
+                keys = sorted(k for k, _ in w)
+                if len(obs.trans) == before and not obs.stuck():
+                    blocked = obs.stuck(ignore=keys)
+                    if blocked:
+                        undecided = False
+                        limit = client.settings.transfers.limits.upload_slots
+                        obs.violate(
+                            'C05/eligible-upload-not-started:slot-held-by-INITIALIZING-upload-that-never-ends',
+                            f'{[(k[0], k[1][-6:], obs.user_info(k[0])) for k in blocked]} stay QUEUED (limit {limit}) '
+                            f'because {[(k[0], k[1][-6:]) for k in keys]} has/have been INITIALIZING for more than '
+                            f'{NEGOTIATION_MAX} s without any state change (longer than all time-outs of one '
+                            f'negotiation attempt together): the slot / the one upload of the user is never released')
+        if undecided:
             res.label('liveness-undecided')
         obs.check_now('end of run')
         obs._close_batch()
         obs.check_requests(downs)
         obs.check_told(told, world.server.frames)
+        obs.check_tracked(world.server.frames)
         out['final_states'] = {k: obs.state_of(k) for k in obs.uploads}
         out['dead_end'] = obs.dead_active()
         await client.stop()
@@ -994,6 +1199,14 @@ KNOWN_REPLAYS = {
         'events': [{'op': 'queue', 'u': 0, 'f': 0}, {'op': 'adv', 'dt': 4}, {'op': 'limit', 'n': 2}],
     },
 }
+
+
+# genuine defects of the reconnect paths found on the unchanged tree and repaired in /repo (stale user object of a tracked
+# user after the session was lost; GetPeerAddress answer awaited for ever): kept as regression replays
+KNOWN_REPLAYS.update({
+    'C05/offline-user-started:told-by-server:after-relogin': {'events': [{'f': 0, 'op': 'queue', 'u': 3}, {'gap': 3, 'op': 'relogin', 'reset': False}], 'lead': 2, 'limit': 1, 'poke': False, 'sizes': [], 'speed': 4, 'users': [{'cut_at': 2, 'cut_n': 3, 'cut_reset': True, 'flaw': 1, 'friend': True, 'link': 1, 'priv': True, 'reply': 0, 'status': 'offline'}]},
+    'C05/eligible-upload-not-started:slot-held-by-INITIALIZING-upload-that-never-ends': {'limit': 1, 'speed': 1, 'sizes': [1100, 2500], 'users': [{'status': 'online', 'friend': False, 'priv': True, 'reply': 0, 'link': 1, 'flaw': 0}, {'status': 'online', 'friend': False, 'priv': False, 'reply': 0, 'link': 0, 'flaw': 0}], 'lead': 4, 'poke': False, 'events': [{'op': 'queue', 'u': 0, 'f': 1}, {'op': 'queue', 'u': 1, 'f': 1}, {'op': 'relogin', 'reset': False, 'gap': 0}]},
+})
 
 
 def run_shard(ctx):
